@@ -12,15 +12,14 @@
      t_values, t_strings, t_string_map, t_value_map, str_of, is_valid, compiles
                         the meaning of the generated Go code, evaluated against the constants
                         of a source (const_env p = the source it was generated from)
-     enum_guard p T     decidable guard: the package compiles, a const spec with a qualified type
-                        (time.Duration) is not followed by a carried-down spec (K_enum_foreign_carry),
-                        no spec's type is only inferred from its expression (K_enum_implicit_type),
-                        no two constants of T with one value (K_enum_dup) or one trimmed name
+     enum_guard p T     decidable guard: the package compiles, no spec's type is only inferred from
+                        its expression (K_enum_implicit_type), no two constants of T with one value
+                        (K_enum_dup) or one trimmed name
    All theorems hold for every package of the grammar (any number of types, files,
    blocks, specs, names) and every x : Z.  Only `exact`s here; proofs are in
    Proofs/Enum{Collect,Tables,Bits,Proofs}.v. *)
 From Coq Require Import List ZArith Bool String Sorted Permutation.
-From Shoot Require Import Model.Enum Proofs.EnumCollect Proofs.EnumTables Proofs.EnumProofs.
+From Shoot Require Import Model.Enum Proofs.EnumCollect Proofs.EnumTables Proofs.EnumProofs Corr.EnumCorr Proofs.EnumPb.
 Import ListNotations.
 Local Open Scope string_scope.
 Local Open Scope Z_scope.
@@ -132,10 +131,21 @@ Print Assumptions C04_guard_exact.
    (the stale-guard theorem is not vacuous) *)
 Theorem C04_fresh_output_compiles : forall p T fl g,
   enum_guard p T = true -> generate p T fl = Some g ->
-  f_bit fl && shadow_i T = false ->          (* K_bit_receiver_shadow: -bit on a type named I... *)
   compiles (const_env p) g false = true.
 Proof. exact P_fresh_output_compiles. Qed.
 Print Assumptions C04_fresh_output_compiles.
+
+(* the boolean property the correspondence run evaluates on what the
+   implementation did (EnumCorr.Pb04: build verdict, Values = declared values
+   ascending, Strings aligned, both maps exact, String/IsValid on every window
+   point) is implied by the theorems above: inside the guard the model's own
+   observation satisfies it, whatever window is asked.  So agreement with the
+   model entails the property, and Pb04 never asks for more than is proved. *)
+Theorem C04_checked_property_follows : forall (c : case) (o : obs),
+  enum_guard (c_pkg c) (c_type c) = true -> f_bit (c_flags c) = false ->
+  Pb04 c (model_obs c o) = true.
+Proof. exact Pb04_model_in_guard. Qed.
+Print Assumptions C04_checked_property_follows.
 
 (* ------------------------------------------------------------- non-vacuity *)
 (* two files, three types of different kinds, a negative value, iota with a
@@ -152,8 +162,9 @@ Definition ex_pkg : pkg :=
              vs ["limit"] TNone [ELit 99];
              vs ["other"] TNone [];
              vs ["LevelTop"] (TIdent "Level") [ELit 127];
-             vs ["tick"] (TForeign KInt64) [ELit 5];            (* a harmless qualified-type spec ... *)
-             vs ["LevelOdd"] (TIdent "Level") [ELit 9] ];       (* ... followed by a spec with values *)
+             vs ["tick"] (TForeign KInt64) [ELit 5];            (* a qualified-type spec (time.Duration) ... *)
+             vs ["tock"] TNone [];                              (* ... and a constant carried down from it *)
+             vs ["LevelOdd"] (TIdent "Level") [ELit 9] ];
            [ vs ["BigOne"] (TIdent "Big") [ELit 1];
              vs ["Huge"] (TIdent "Big") [ELit 18446744073709551615] ] ];
          [ [ vs ["_"] (TIdent "Color") [EIota];
@@ -217,7 +228,7 @@ Definition dup_pkg : pkg :=
 
 Theorem C04_refuted_K_enum_dup :
   exists p T fl g,
-    wf_pkg p = true /\ shape_ok p = true /\ foreign_ok p = true /\ no_implicit p = true
+    wf_pkg p = true /\ shape_ok p = true /\ no_implicit p = true
     /\ generate p T fl = Some g
     /\ compiles (const_env p) g false = false.
 Proof. exists dup_pkg, "Color", no_flags. eexists. conj; vm_compute; reflexivity. Qed.
@@ -234,7 +245,7 @@ Definition implicit_pkg : pkg :=
 
 Theorem C04_refuted_K_enum_implicit_type :
   exists p T fl g,
-    wf_pkg p = true /\ shape_ok p = true /\ foreign_ok p = true
+    wf_pkg p = true /\ shape_ok p = true
     /\ generate p T fl = Some g
     /\ In ("PermRW", 3) (declared T p)
     /\ is_valid (const_env p) g 3 = false.
@@ -244,21 +255,20 @@ Proof.
 Qed.
 Print Assumptions C04_refuted_K_enum_implicit_type.
 
-(* K_enum_foreign_carry (open): a carried-down spec after a spec with a
-   qualified type is a constant of THAT type, but the walk attributes it to the
-   type remembered before: an undeclared constant appears in the tables (and
-   the output does not type-check in Go) *)
+(* K_enum_foreign_carry (repaired in /repo): a carried-down spec after a spec with a
+   qualified type is a constant of THAT type; the walk used to attribute it to the
+   type remembered before.  Now the qualified-type spec resets the remembered type:
+   the package is inside the guard and only the declared constant is in the tables. *)
 Definition foreign_pkg : pkg :=
   {| p_types := [("Lvl", KInt64)];
      p_files := [ [ [ vs ["LvlA"] (TIdent "Lvl") [ELit 1];
                       vs ["Tick"] (TForeign KInt64) [ELit 5];
                       vs ["Tock"] TNone [] ] ] ] |}.
 
-Theorem C04_refuted_K_enum_foreign_carry :
-  exists p T fl g,
-    wf_pkg p = true /\ shape_ok p = true /\ no_implicit p = true /\ foreign_ok p = false
-    /\ generate p T fl = Some g
-    /\ declared T p = [("LvlA", 1)]
-    /\ is_valid (const_env p) g 5 = true.
-Proof. exists foreign_pkg, "Lvl", no_flags. eexists. conj; vm_compute; reflexivity. Qed.
-Print Assumptions C04_refuted_K_enum_foreign_carry.
+Example C04_example_K_enum_foreign_carry_repaired :
+  enum_guard foreign_pkg "Lvl" = true
+  /\ declared "Lvl" foreign_pkg = [("LvlA", 1)]
+  /\ exists g, generate foreign_pkg "Lvl" no_flags = Some g
+       /\ t_values (const_env foreign_pkg) g = [1]
+       /\ is_valid (const_env foreign_pkg) g 5 = false.
+Proof. split; [|split]; [vm_compute; reflexivity | vm_compute; reflexivity |]. eexists. conj; vm_compute; reflexivity. Qed.
